@@ -122,7 +122,14 @@ func Interval(interval time.Duration) Observable[int64] {
 // Play: https://go.dev/play/p/Xhi6c336ldy
 func IntervalWithInitial(initial, interval time.Duration) Observable[int64] {
 	return NewObservableWithContext(func(ctx context.Context, destination Observer[int64]) Teardown {
-		ticker := time.NewTicker(initial * 2)
+		tickerPeriod := initial * 2
+		if initial == 0 {
+			// time.NewTicker panics on a non-positive period; with no initial delay
+			// the first value is emitted right below and the ticker runs at `interval`
+			tickerPeriod = interval
+		}
+
+		ticker := time.NewTicker(tickerPeriod)
 		timer := time.NewTimer(initial)
 		done := make(chan struct{}, 1)
 
